@@ -11,7 +11,7 @@ trap 'git -C /repo worktree remove --force $W' EXIT
 cd $W
 PLACE=$(python3 -c "import json,sys;print(json.load(open('$D/meta.json'))['demo']['place_at'].split()[0])")
 RUN=$(python3 -c "import json,sys;print(json.load(open('$D/meta.json'))['demo']['run'])")
-DEMO=$(ls $D | grep -v 'patch.diff\|meta.json' | head -1)
+DEMO=$(ls $D | grep '\.go$' | head -1)
 case "$PLACE" in
   *.go) mkdir -p $(dirname $PLACE); cp $D/$DEMO $PLACE;;
   *) mkdir -p $PLACE; cp $D/$DEMO $PLACE/;;
